@@ -25,7 +25,7 @@ def strategy(optimizer, tier):
     return strategies.run_spec(
         optimizer, task=strategies.task_spec(minmax=("max",)),
         config=strategies.config_spec(optimizer, max_cycles=(3, 6 if tier == "quick" else 15), stopping=False,
-                                      min_cycles=3),
+                                      min_cycles=3, perturb=0.5),
         modes=("serial",))
 
 
